@@ -172,6 +172,11 @@ class C01(Check):
             if s.get("long"):
                 for force in (80, 1, 255) if (self.thorough or i % 2 == 0) else (80, 7):
                     cs.append({"kind": "shape", "shape": i, "force": force})
+                # the other dongle classes (TCP, SGX: their own connection and, possibly, framing) with the
+                # largest and an ordinary chunk size
+                for plat in ("tcp", "sgx"):
+                    for force in ((255, 80) if self.thorough else (255,)):
+                        cs.append({"kind": "shape", "shape": i, "force": force, "platform": plat})
                 continue
             cs.append({"kind": "shape", "shape": i})
         # every composition of short receipts / proofs
@@ -219,7 +224,7 @@ class C01(Check):
             if s.get("long"):
                 dev.force_sticky = s.get("force", 80)
             w = World(dev, max_exchanges=200000 if s.get("long") else 3000)
-            proto = harness.make_protocol(w, v1=exp["v1"])
+            proto = harness.make_protocol(w, v1=exp["v1"], platform=s.get("platform", "ledger"))
             reply, exc = harness.handle_request(proto, copy.deepcopy(req))
             return dev, w, reply, exc
         return run, exp
@@ -364,6 +369,8 @@ class C01(Check):
             s = self.shapes[case["shape"]]
             if s.get("long"):
                 s = dict(s, force=case.get("force", 80))
+            if case.get("platform"):
+                s = dict(s, platform=case["platform"])
             run, exp = self.driver(s)
             bound = self.bound
             if s["big"]:
